@@ -139,7 +139,10 @@ func families(thorough bool) []family {
 	}
 	msiStarts = append(msiStarts, start{ID: "msi/fixture:dummy.msi", Build: fixed(shapes.Fixture("dummy.msi"))})
 	fams = append(fams, family{Type: "msi", PType: "msi", Ext: ".msi", Starts: msiStarts,
-		Ops:         stdOps("msi", crypto.SHA512, "no-extended-sig", url.Values{}, url.Values{"no-extended-sig": {"true"}}, thorough, x509Keys),
+		// rsaAbig: a signature stream of more than 4096 bytes (regular sectors), so that
+		// histories replace a large stream by a small one and the other way round
+		Ops: append(stdOps("msi", crypto.SHA512, "no-extended-sig", url.Values{}, url.Values{"no-extended-sig": {"true"}}, thorough, x509Keys),
+			op{Name: "rsaAbig/sha256/no-extended-sig=off", SigType: "msi", Key: "rsaAbig", Hash: crypto.SHA256, Flags: url.Values{}}),
 		ReaderAllow: func(b []byte) []string { return payload.CFBProblemKeys(b) },
 		Digest: func(path string, h crypto.Hash) (map[string]string, error) {
 			out := map[string]string{}
